@@ -95,7 +95,9 @@ def make_case(rng, b, fam, orient):
         return Element(sym) if i % 2 else Species(sym, ox[sym][0])
     traj = Trajectory(species=[mk(s, i) for i, s in enumerate(species_all)], coords=coords, lattice=lattice, time_step=1e-15,
                       metadata={'temperature': 300.0})
-    structure = Structure(lattice=lattice, species=['Li'] * S, coords=np.array(sites) / N, labels=labels)
+    # the sites may come with a cell of their own (a reference structure file): distances are those of the simulation cell
+    site_cell_scale = float(rng.choice([1.0, 1.0, 1.2, 0.85, 1.07]))
+    structure = Structure(lattice=Lattice(M * site_cell_scale), species=['Li'] * S, coords=np.array(sites) / N, labels=labels)
     # all attainable squared distances
     qs = set()
     for t in range(T):
